@@ -806,6 +806,11 @@ class Val(Contract):
     """x.val(): one public output tied to x by an equality constraint; returns the value."""
     name = "pysnark.runtime:LinComb.val"
 
+    # the mechanism C17 names: every call allocates ONE new public wire and ties it (also for a wire reported before)
+    vprops = ("C05", "C17")
+    sprops = ("C02", "C17")
+    tprops = ("C06", "C17")
+
     def configs(self, tier):
         return [dict(mode=m) for m in MODES]
 
